@@ -124,6 +124,10 @@ class Impl:
         import mysensors
         from mysensors.gateway_mqtt import MQTTGateway, AsyncMQTTGateway
         self.cfg = cfg
+        if cfg.get("tz"):
+            import time
+            os.environ["TZ"] = cfg["tz"]
+            time.tzset()
         self.log = [] if log is None else log      # one continuous event log across restarts
         self.scratch = scratch or (BUILD / "scratch" / str(os.getpid()))
         kwargs = {"protocol_version": cfg.get("spell") or cfg["ver"]}
